@@ -185,7 +185,11 @@ func (db *SpecDB) add(key string, pc *PkgContracts) {
 	}
 	if old, ok := db.pkgs[key]; ok {
 		for k, v := range pc.Funcs {
-			old.Funcs[k] = v
+			if prev, ok := old.Funcs[k]; ok {
+				prev.merge(v)
+			} else {
+				old.Funcs[k] = v
+			}
 		}
 		for k, v := range pc.Macros {
 			old.Macros[k] = v
